@@ -221,13 +221,14 @@ impl SqPackData {
     fn read_standard_file(&mut self, offset: u64, file_info: &FileInfo) -> Option<ByteBuffer> {
         let standard_file_info = file_info.standard_info.as_ref()?;
 
-        let mut blocks: Vec<Block> = Vec::with_capacity(standard_file_info.num_blocks as usize);
+        let mut blocks: Vec<Block> = Vec::new();
 
         for _ in 0..standard_file_info.num_blocks {
             blocks.push(Block::read(&mut self.file).ok()?);
         }
 
-        let mut data: Vec<u8> = Vec::with_capacity(file_info.file_size as usize);
+        // not pre-sized: the size comes from the file
+        let mut data: Vec<u8> = Vec::new();
 
         let starting_position = offset + (file_info.size as u64);
 
@@ -394,7 +395,8 @@ impl SqPackData {
     fn read_texture_file(&mut self, offset: u64, file_info: &FileInfo) -> Option<ByteBuffer> {
         let texture_file_info = file_info.texture_info.as_ref()?;
 
-        let mut data: Vec<u8> = Vec::with_capacity(file_info.file_size as usize);
+        // not pre-sized: the size comes from the file
+        let mut data: Vec<u8> = Vec::new();
 
         // write the header if it exists
         let mipmap_size = texture_file_info.lods.first()?.compressed_size;
@@ -405,8 +407,15 @@ impl SqPackData {
                 .seek(SeekFrom::Start(offset + file_info.size as u64))
                 .ok()?;
 
-            let mut header = vec![0u8; texture_file_info.lods[0].compressed_offset as usize];
-            self.file.read_exact(&mut header).ok()?;
+            let mut header = Vec::new();
+            let header_size = texture_file_info.lods[0].compressed_offset as u64;
+            (&mut self.file)
+                .take(header_size)
+                .read_to_end(&mut header)
+                .ok()?;
+            if header.len() as u64 != header_size {
+                return None;
+            }
 
             data.append(&mut header);
 
